@@ -284,6 +284,10 @@ def run(unit, features=(), repo=REPO, seed=None, rlimit=40, extra_args=(), tag="
         if d.kind == "compile":
             compile_errors.append(d)
         res.diags.append(d)
+    if j is None and compile_errors:
+        res.status = "compile_error"
+        res.detail = "; ".join((d.message + " @" + str(d.repo_loc)) for d in compile_errors[:4])
+        return res
     if j is None:
         res.status = "tool_error"
         res.detail = "no JSON from verus (rc=%s): %s" % (p.returncode, p.stderr[-600:])
